@@ -1,0 +1,7 @@
+//go:build verif
+
+package session
+
+// VerifLoad runs the \load command (line = `\load <key> <data.csv> [<control.yaml>]`).
+// Exported for the verification harness only (build tag verif).
+func (c *Client) VerifLoad(line string) error { return c.load(line) }
